@@ -116,6 +116,24 @@ theorem C01_plus_hash_parent_level (pre ts : Path) (t : Str) (hm : matchLv pre t
       exact ⟨hm.1, ih as hm.2 (fun g hg => hh g (by simp [hg]))⟩
 
 #print axioms C01_plus_hash_parent_level
+/-- and no shallower: a topic with no level for the `+` to stand on is not matched by `pre/+/#` -/
+theorem C01_plus_hash_needs_plus_level (pre ts : Path) (hl : ts.length ≤ pre.length)
+    (hh : ∀ f ∈ pre, f ≠ [hash]) : matchLv (pre ++ [[plus], [hash]]) ts = false := by
+  induction pre generalizing ts with
+  | nil =>
+    cases ts with
+    | nil => simp [matchLv, plus, hash]
+    | cons a as => simp at hl
+  | cons f fs ih =>
+    have hf : (f == [hash]) = false := by simpa using hh f (by simp)
+    cases ts with
+    | nil => simp [matchLv, hf]
+    | cons a as =>
+      simp only [List.cons_append, matchLv, hf, Bool.false_eq_true, if_false]
+      rw [ih as (by simpa using hl) (fun g hg => hh g (by simp [hg]))]
+      simp
+
+#print axioms C01_plus_hash_needs_plus_level
 
 /-- `+/#` matches the parent level; `a/#` matches `a`; a leading wildcard is excluded for `$` topics
     (the three witnesses of the repaired defects), and non-vacuity of the hypotheses. -/
